@@ -325,6 +325,10 @@ func runC07(c *Ctx) {
 	parallel(nWS, 14, func(i int) {
 		r := root.Fork(uint64(i))
 		sw := GenScopeWS(r, ScopeCfg{})
+		if r.Fork(0x66696c65).Chance(1, 5) {
+			sw.AddFileNamedLikeAGlobal(r.Fork(0x66696c66))
+			c.Count("workspaces_with_a_file_named_like_a_global", 1)
+		}
 		c.Eval(1)
 		jsonCfg := ""
 		var ign *c07Ignore
